@@ -14,11 +14,14 @@ theorem loop_cases (P : Nat → Nat → LoopOut σ → Prop)
     (hzero : ∀ k u, P 0 k (.done u .failed (k - 1)))
     (hcont : ∀ fuel k r, P fuel (k + 1) r → P (fuel + 1) k r)
     (hraise : ∀ (fuel k : Nat) (u : σ), P (fuel + 1) k (.evalRaised u k))
-    (hnf : ∀ (fuel k : Nat) (u : σ), o.errors = .raise → P (fuel + 1) k (.nonFinite u k))
-    (hskip : ∀ (fuel k : Nat) (u : σ), o.errors = .skip → P (fuel + 1) k (.done u .skipped k))
+    (hnf : ∀ (fuel k : Nat) (u : σ), o.errors = .raise → I.allFinite (I.check u t) = false →
+      P (fuel + 1) k (.nonFinite u k))
+    (hskip : ∀ (fuel k : Nat) (u : σ), o.errors = .skip → I.allFinite (I.check u t) = false →
+      P (fuel + 1) k (.done u .skipped k))
     (hmax : ∀ (fuel k : Nat) (u : σ), (o.errors = .ignore ∨ o.errors = .replace) → (k : Int) = o.maxIter →
-      P (fuel + 1) k (.done u .failed k))
-    (hbad : ∀ (fuel k : Nat) (u : σ), o.errors = .invalid → P (fuel + 1) k (.badErrors u k))
+      I.allFinite (I.check u t) = false → P (fuel + 1) k (.done u .failed k))
+    (hbad : ∀ (fuel k : Nat) (u : σ), o.errors = .invalid → I.allFinite (I.check u t) = false →
+      P (fuel + 1) k (.badErrors u k))
     (hafter : ∀ (fuel k : Nat) (u : σ), ¬ (k : Int) < o.minIter → P (fuel + 1) k (.afterRaised u k))
     (hsolved : ∀ (fuel k : Nat) (u : σ), ¬ (k : Int) < o.minIter → P (fuel + 1) k (.done u .solved k)) :
     ∀ fuel k u prev, P fuel k (loop I o t fuel k u prev) := by
@@ -33,18 +36,19 @@ theorem loop_cases (P : Nat → Nat → LoopOut σ → Prop)
     · split
       · exact hcont _ _ _ (ih _ _ _)
       · split
-        · split
-          · rename_i he; exact hnf _ _ _ he
-          · rename_i he; exact hskip _ _ _ he
+        · rename_i hc
+          split
+          · rename_i he; exact hnf _ _ _ he hc
+          · rename_i he; exact hskip _ _ _ he hc
           · rename_i he
             split
-            · rename_i hk; exact hmax _ _ _ (Or.inl he) hk
+            · rename_i hk; exact hmax _ _ _ (Or.inl he) hk hc
             · exact hcont _ _ _ (ih _ _ _)
           · rename_i he
             split
-            · rename_i hk; exact hmax _ _ _ (Or.inr he) hk
+            · rename_i hk; exact hmax _ _ _ (Or.inr he) hk hc
             · exact hcont _ _ _ (ih _ _ _)
-          · rename_i he; exact hbad _ _ _ he
+          · rename_i he; exact hbad _ _ _ he hc
         · split
           · exact hcont _ _ _ (ih _ _ _)
           · rename_i hm
@@ -84,10 +88,10 @@ theorem loop_bound (fuel k : Nat) (u : σ) (prev : V) : LoopBound o fuel k (loop
     | afterRaised u k' => simp only [LoopBound] at h ⊢; obtain ⟨a, b, c⟩ := h; exact ⟨by omega, by omega, c⟩
     | badErrors u k' => simp only [LoopBound] at h ⊢; obtain ⟨a, b, c⟩ := h; exact ⟨by omega, by omega, c⟩
   · intro fuel k u; simp only [LoopBound]; omega
-  · intro fuel k u he; exact ⟨Nat.le_refl _, by omega, he⟩
-  · intro fuel k u he; exact ⟨Nat.le_refl _, by omega, he⟩
-  · intro fuel k u he hk; exact Or.inr ⟨Nat.le_refl _, by omega, hk, he⟩
-  · intro fuel k u he; exact ⟨Nat.le_refl _, by omega, he⟩
+  · intro fuel k u he _; exact ⟨Nat.le_refl _, by omega, he⟩
+  · intro fuel k u he _; exact ⟨Nat.le_refl _, by omega, he⟩
+  · intro fuel k u he hk _; exact Or.inr ⟨Nat.le_refl _, by omega, hk, he⟩
+  · intro fuel k u he _; exact ⟨Nat.le_refl _, by omega, he⟩
   · intro fuel k u hm; exact ⟨Nat.le_refl _, by omega, hm⟩
   · intro fuel k u hm; exact ⟨Nat.le_refl _, by omega, hm⟩
 
@@ -154,5 +158,38 @@ theorem outcome_agrees (n : Nat) (u : σ) :
           · split
             · simpa [Agree] using hm
             · exact finishOutcome_agrees o _ (loop_bound I o t _ _ _ _) hm
+
+/-- A model that never reports a non-finite check value (the linker's composite interpretation is one) can end its loop
+    only by converging, by running out of passes, or by an exception from a pass or the post-hook. -/
+def LoopBoundFinite (o : Opts) (fuel k : Nat) : LoopOut σ → Prop
+  | .done _ .solved k' => k ≤ k' ∧ k' < k + fuel ∧ ¬ (k' : Int) < o.minIter
+  | .done _ .failed k' => k' = k + fuel - 1
+  | .done _ _ _ => False
+  | .evalRaised _ k' => k ≤ k' ∧ k' < k + fuel
+  | .afterRaised _ k' => k ≤ k' ∧ k' < k + fuel
+  | .nonFinite _ _ => False
+  | .badErrors _ _ => False
+
+theorem loop_bound_finite (hfin : ∀ v, I.allFinite v = true) (fuel k : Nat) (u : σ) (prev : V) :
+    LoopBoundFinite o fuel k (loop I o t fuel k u prev) := by
+  refine loop_cases I o t (fun fuel k r => LoopBoundFinite o fuel k r) ?_ ?_ ?_ ?_ ?_ ?_ ?_ ?_ ?_ fuel k u prev
+  · intro k u; simp [LoopBoundFinite]
+  · intro fuel k r h
+    cases r with
+    | done u s k' =>
+      cases s <;> simp only [LoopBoundFinite] at h ⊢
+      · obtain ⟨a, b, c⟩ := h; exact ⟨by omega, by omega, c⟩
+      · omega
+    | evalRaised u k' => simp only [LoopBoundFinite] at h ⊢; omega
+    | nonFinite u k' => simp only [LoopBoundFinite] at h
+    | afterRaised u k' => simp only [LoopBoundFinite] at h ⊢; omega
+    | badErrors u k' => simp only [LoopBoundFinite] at h
+  · intro fuel k u; simp only [LoopBoundFinite]; omega
+  · intro fuel k u _ hc; rw [hfin] at hc; cases hc
+  · intro fuel k u _ hc; rw [hfin] at hc; cases hc
+  · intro fuel k u _ _ hc; rw [hfin] at hc; cases hc
+  · intro fuel k u _ hc; rw [hfin] at hc; cases hc
+  · intro fuel k u hm; simp only [LoopBoundFinite]; omega
+  · intro fuel k u hm; exact ⟨Nat.le_refl _, by omega, hm⟩
 
 end Fsic
